@@ -296,8 +296,25 @@ def derived_rule(prog, res, rule='derived'):
     store = [n for n in sub.all_nodes({'BinaryOperator'}) if n['op'] == '=' and R.render(n['ch'][0]) == 'this._nbAnalogByFrame' and R.render(n['ch'][1]) == 'arg0']
     reads = [n for n in sub.calls() if n['callee']['usr'] == getter.usr]
     writes = [n for n in sub.calls() if n['callee']['usr'] == setter.usr]
-    ok = len(store) == 1 and len(reads) >= 1 and len(writes) == 1
-    if ok:
+    direct = [n for n in sub.all_nodes({'BinaryOperator'}) if n['op'] == '=' and R.render(n['ch'][0]) == 'this._nbAnalogsMeasurement']
+    ok = len(store) == 1 and len(reads) >= 1 and (len(writes) == 1 or len(direct) == 1)
+    if ok and not writes:
+        # the setter inlined:  _nbAnalogsMeasurement = saved * _nbAnalogByFrame  after the store
+        sv = g.vertex_of.get(store[0]['id'])
+        rv = g.vertex_of.get(reads[0]['id'])
+        wv = g.vertex_of.get(direct[0]['id'])
+        rhs = sub.nodes[sub.strip(direct[0]['ch'][1], 'all')]
+        init_ok = False
+        if rhs['k'] == 'BinaryOperator' and rhs['op'] == '*':
+            sides = [sub.nodes[sub.strip(c, 'all')] for c in rhs['ch']]
+            rr = [R.render(c) for c in rhs['ch']]
+            from paths import local_init
+            for a_, other in ((sides[0], rr[1]), (sides[1], rr[0])):
+                if a_['k'] == 'DeclRefExpr' and a_['decl'].get('dk') == 'local' and other == 'this._nbAnalogByFrame':
+                    init = local_init(sub, a_['decl']['id'])
+                    init_ok = init is not None and reads[0]['id'] in sub.descendants(init)
+        ok = None not in (sv, rv, wv) and g.dominates(rv, sv) and g.dominates(sv, wv) and g.NEXIT not in g.reach([sv], avoid={wv}) and init_ok
+    elif ok:
         sv = g.vertex_of.get(store[0]['id'])
         rv = g.vertex_of.get(reads[0]['id'])
         wv = g.vertex_of.get(writes[0]['id'])
